@@ -10,6 +10,7 @@ Require Import Grist.Model.MetaCascade Grist.Proofs.MetaCascade_base Grist.Proof
   Grist.Proofs.MetaCascade_add7 Grist.Proofs.MetaCascade_regroup Grist.Proofs.MetaCascade_regroup2
   Grist.Proofs.MetaCascade_conv Grist.Proofs.MetaCascade_clear Grist.Proofs.MetaCascade_sec2
   Grist.Proofs.MetaCascade_reid Grist.Proofs.MetaCascade_sis Grist.Proofs.MetaCascade_detach
+  Grist.Proofs.MetaCascade_vis
   Grist.Proofs.MetaCascade_upd Grist.Proofs.MetaCascade_upd2 Grist.Proofs.MetaCascade_upd3.
 Open Scope Z_scope.
 
@@ -54,6 +55,7 @@ Proof.
   - apply (detach_inv _ _ _ _ _ _ _ HI H).
   - destruct (add_table name kinds pview m) as [[m1 t]| |] eqn:E; simpl in H; try discriminate.
     inversion H; subst. apply set_refts_inv. apply (add_table_inv _ _ _ _ _ _ HI E).
+  - apply (add_visible_column_inv _ _ _ _ _ _ HI H).
   - apply (create_section_shown_inv _ _ _ _ _ HI H).
   - apply (create_summary_existing_inv _ _ _ _ _ _ _ _ HI H).
   - inversion H; subst. exact HI.
